@@ -242,15 +242,15 @@ def stepEv (s : St) (path : String) (fs0 : List (String × Val)) (exts : List (L
   let fs := if path == "jb" || path == "js" then fs0.map (fun kv => (kv.1, mapF64 (jnumOf exts) kv.2)) else fs0
   match path with
   | "mp" | "jb" =>
-    let r := ingestBatch s.cfg fs
+    let r := ingestBatchF fixedNow s.cfg fs
     ({ s with cur := keptOf r }, some (evObs (outcomeStr (outcomeOf r)) r))
   | "om" =>
-    let r := ingestMeta s.cfg fs
+    let r := ingestMetaF fixedNow s.cfg fs
     ({ s with cur := keptOf r }, some (evObs (outcomeStr (outcomeOf r)) r))
   | "js" =>
     let f2i := f2iOf exts
     let memo := memoOfJSON fs
-    let results := (candidateOrders s.cfg memo).map fun ord => ingestMap s.cfg f2i fs ord
+    let results := (candidateOrders s.cfg memo).map fun ord => ingestMapF fixedNow s.cfg f2i fs ord
     let canon := results.head?.getD none
     match seenOf exts with
     | none => ({ s with cur := keptOf canon }, some (evObs (outcomeStr (outcomeOf canon)) canon))
@@ -304,12 +304,12 @@ def step (s : St) (op : List String) (exts : List (List String)) : St × Option 
   | ["out"] =>
     match s.cur with
     | none => (s, some "nopayload")
-    | some p => (s, some (renderStr (.map (marshal p))))
+    | some p => (s, some (renderStr (.map (marshalF fixedNow p))))
   | ["fwd"] =>
     match s.cur with
     | none => (s, some "nopayload")
     | some p =>
-      match forward s.cfg p with
+      match forwardF fixedNow s.cfg p with
       | none => (s, some "nofwd")
       | some r => (s, some (evObs (outcomeStr (outcomeOf r)) r))
   | _ => (s, some "bad-op")
